@@ -1,5 +1,6 @@
 import VrlModel.Driver.C18
 import VrlModel.Driver.Lang
+import VrlModel.Driver.C15
 import VrlModel.Driver.Arith
 import VrlModel.Driver.C25
 import VrlModel.Driver.C29int
@@ -10,6 +11,7 @@ import VrlModel.Driver.C22
 def handlers : List (String → List String → Option String) := [
   Driver.C18.handle,
   Driver.LangRun.handle,
+  Driver.C15.handle,
   Driver.ArithOps.handle,
   Driver.C25.handle,
   Driver.C29int.handle,
